@@ -474,6 +474,28 @@ func runSeq(nExt int, withInt bool, seq []string) (func(), *stack.Config) {
 							mism = append(mism, fmt.Sprintf("completion: %s subscribed to INVOKE=%v but received the event=%v", actor, sub, got))
 						}
 					}
+					// "both final": an extension that reported an exit error while its polling thread was parked stays in
+					// that state when the parked call is released - a further next is refused, it does not park
+					for _, actor := range m.order {
+						a := m.agents[actor]
+						if a.st != agExitError || !a.inNext || extIDs[actor] == "" {
+							continue
+						}
+						x := &stack.Actor{W: w, P: w.K.Detached("/after-final"), Name: "thread3:" + actor, Gen: 1, ExtID: extIDs[actor]}
+						var r *stack.Call
+						done := false
+						sched.Go("after-final:"+actor, func() {
+							defer stack.QuietExit()
+							r = x.ExtNext()
+							done = true
+						})
+						sched.WaitQuiet()
+						if !done {
+							mism = append(mism, fmt.Sprintf("completion: %s reported an exit error, yet after the release of its parked call a further next parks (the final state was left)", actor))
+						} else if r.Status != 403 {
+							mism = append(mism, fmt.Sprintf("completion: %s reported an exit error, yet a further next got status %d (%s) instead of 403", actor, r.Status, etype(r.Body)))
+						}
+					}
 				}
 			}
 		}
